@@ -11,6 +11,8 @@ import json
 import math
 import random
 
+import numpy as np
+
 from ..core import Ctx, Machinery
 from ..rat import ppb
 from .. import tlc
@@ -43,7 +45,8 @@ def decode(f):
     return None
 
 
-def walk(path, samples=((0.25, 0.0), (1.7, -3.2), (0.013, 40.0)), energy=None):
+def walk(path, samples=((0.25, 0.0), (1.7, -3.2), (0.013, 40.0), (2, -10), (np.int64(3), np.int64(7))), energy=None):
+    # the last two samples: samplings / offsets that happen to be integers (Python and NumPy) - same axes, other argument forms
     from abtem.core.units import get_conversion_factor
     from abtem.core.axes import LinearAxis
 
